@@ -8,7 +8,7 @@ from lib.common import build_props, WORK
 
 GROUPS = ['GenAsync', 'GenStruct']
 LIMIT = 20
-POINTS = ['init', 'init_later', 'task', 'task', 'task', 'between', 'exit', 'idle_keepalive', 'apply_task', 'apply_task']
+POINTS = ['init', 'init_later', 'task', 'task', 'task', 'between', 'exit', 'idle_keepalive', 'apply_task', 'apply_task', 'idle_in_call']
 
 
 def gen(rng, k, tier):
@@ -65,6 +65,13 @@ def gen(rng, k, tier):
         params.pop('worker_lifespan', None)
         call2 = dict(call, base=2000, params=dict(params))
         calls = [call, {'kind': 'kill_idle_worker', 'worker': victim, 'settle': rng.choice([0.05, 0.5])}, call2]
+    elif point == 'idle_in_call':
+        # not the first call of the pool; the victim dies at its first get_task of the second call, before it got any chunk of it
+        call2 = dict(call, base=2000, params=dict(params))
+        calls = [call, {'kind': 'touch', 'path': marker}, call2]
+        plan = [{'method': 'get_task', 'actor': 'worker', 'worker_id': victim, 'nth': 1, 'per_process': True, 'action': 'qkill', 'if_file': marker}]
+        pool['keep_alive'] = False
+        pool['start_method'] = 'fork'
     elif point == 'apply_task':
         jobs = [{'id': i, 'args': [3000 + i], 'cbs': [True, True]} for i in range(rng.choice([2, 5, 9]))]
         dying = sorted(rng.sample(range(len(jobs)), rng.choice([1, 1, 2]) if len(jobs) > 2 else 1))
@@ -119,13 +126,13 @@ def oracle(rec):
         if out['wall'] > LIMIT + 10:
             return f"apply: batch took {out['wall']:.1f}s"
         return None
-    if point == 'idle_keepalive':
+    if point in ('idle_keepalive', 'idle_in_call'):
         c1, _, c2 = sc['calls']
         o1, _, o2 = res['calls']
         msg = S.check_value(c1, o1)
         if msg:
-            return 'idle_keepalive, first call: ' + msg
-        return judge_map(c2, o2, None, 'idle_keepalive, call after the kill')
+            return f'{point}, first call: ' + msg
+        return judge_map(c2, o2, None, f'{point}, call with / after the kill')
     call, out = sc['calls'][0], res['calls'][0]
     if not dying:
         # the crash point was not reached (e.g. the victim never got a task): the call must be correct
@@ -196,7 +203,7 @@ def run(ctx):
         dist[sc['point']] = dist.get(sc['point'], 0) + 1
         dist['start:' + sc['pool']['start_method']] = dist.get('start:' + sc['pool']['start_method'], 0) + 1
         if any(True for _ in runner.all_events(r, 'dying')) or any(e.get('action') == 'qkill' for e in runner.all_events(r, 'plan')) \
-                or sc['point'] == 'idle_keepalive':
+                or sc['point'] in ('idle_keepalive',):
             reached[sc['point']] = reached.get(sc['point'], 0) + 1
         if r['status'] == 'done' and r['result'] and r['result']['calls']:
             o = r['result']['calls'][-1]
